@@ -233,7 +233,9 @@ fn script(sc: &Sc) -> String {
     if sc.ekind == 0 {
         s += &format!("exit {}", sc.earg);
     } else {
-        s += &format!("kill -{} $$; sleep 5", sc.earg);
+        // a fresh shell (same pid): dash that has waited for a pipeline catches SIGINT
+        // itself and would survive `kill -2 $$`
+        s += &format!("exec /bin/sh -c 'kill -{} $$; sleep 5'", sc.earg);
     }
     s
 }
@@ -435,5 +437,11 @@ fn run(case: &[u64]) -> Result<Vec<u64>, BadCase> {
 }
 
 fn main() {
+    // a harness started as a background job of a non-interactive shell inherits
+    // SIGINT / SIGQUIT as ignored, and so would the children: `kill -2 $$` would
+    // not terminate them.  Children must start with default dispositions.
+    for s in [libc::SIGHUP, libc::SIGINT, libc::SIGQUIT, libc::SIGUSR1, libc::SIGUSR2, libc::SIGALRM, libc::SIGTERM] {
+        unsafe { libc::signal(s, libc::SIG_DFL) };
+    }
     main_loop(run);
 }
